@@ -142,6 +142,10 @@ func CommentState(l *lexer) stateFn {
 					l.ignore()
 					break
 				}
+				if r == '*' {
+					// this star may itself start the terminator
+					l.backup()
+				}
 			}
 			if r == eof {
 				l.error("comment do not has */")
